@@ -442,6 +442,45 @@ theorem group_total_rows (st : Settings) (sel : BalRow → Bool) (key : Txn → 
     exact members_wf key txns hwf kg.1
   exact forall₂_sum st sel k hsel _ _ hall hcs
 
+/-! ### the groups in closed form -/
+
+/-- strictly ascending lists of strings with the same members are equal -/
+theorem strict_ext {l₁ l₂ : List String} (h1 : l₁.Pairwise (· < ·)) (h2 : l₂.Pairwise (· < ·))
+    (hm : ∀ k, k ∈ l₁ ↔ k ∈ l₂) : l₁ = l₂ := by
+  apply sorted_perm_eq (fun a b : String => a < b) l₁ l₂
+    ((List.perm_ext_iff_of_nodup (strict_nodup h1) (strict_nodup h2)).mpr hm) h1 h2
+  intro a b _ _ hab hba
+  exact absurd (String.lt_trans hab hba) (String.lt_irrefl _)
+
+/-- **the group candidates in closed form**: if `ks` lists the keys that occur among the transactions in strictly
+    ascending order, the candidates are, for each key of `ks` in turn, the transactions with that key in journal
+    order — whatever the order of the keys along the journal. -/
+theorem group_candidates_eq (key : Txn → String) (txns : List Txn) (ks : List String)
+    (hsorted : ks.Pairwise (· < ·)) (hmem : ∀ k, k ∈ ks ↔ ∃ t ∈ txns, key t = k) :
+    groupCandidates key txns = ks.map (fun k => (k, txns.filter (fun t => decide (key t = k)))) := by
+  have hs := candidates_spec key txns
+  have hks : (groupCandidates key txns).map (·.1) = ks := by
+    apply strict_ext hs.strict hsorted
+    intro k
+    rw [hmem]
+    constructor
+    · intro hk
+      obtain ⟨kg, hkg, rfl⟩ := List.mem_map.mp hk
+      obtain ⟨t, ht, htk⟩ := chunk_key_mem key _ kg hkg
+      exact ⟨t, (List.mergeSort_perm txns _).mem_iff.mp ht, htk⟩
+    · rintro ⟨t, ht, rfl⟩
+      obtain ⟨g, hg, _⟩ := mem_chunk key _ t ((List.mergeSort_perm txns (keyLeS key)).mem_iff.mpr ht)
+      exact List.mem_map.mpr ⟨_, hg, rfl⟩
+  rw [← hks, List.map_map]
+  have : ∀ kg ∈ groupCandidates key txns,
+      kg = ((fun k => (k, txns.filter (fun t => decide (key t = k)))) ∘ (·.1)) kg := by
+    intro kg hkg
+    apply Prod.ext
+    · rfl
+    · exact hs.filter kg hkg
+  conv => lhs; rw [← List.map_id (groupCandidates key txns)]
+  exact List.map_congr_left this
+
 /-! ### the report: key of `get_group_by_op`, zone given as a fixed offset or as a table -/
 
 /-- `balanceGroups` is `balanceGroupsBy` with the period key of the report zone (inside the model's domain: every
@@ -730,6 +769,174 @@ theorem fixed_offset_unchanged_loaded (st : Settings) (sel : BalRow → Bool) (g
     balanceGroupsConsecutive st sel (groupKey g (.fixed off)) (sortTxns xs) = .ok gs ↔
       balanceGroups st sel g (.fixed off) (sortTxns xs) = .ok gs :=
   fixed_offset_unchanged st sel g off _ (sorted_by_instant xs) gs
+
+/-! ### non-vacuity and the witness of F12
+
+`America/Goose_Bay` on 2010-11-07: at 03:01:00Z (00:01 local, UTC−3) the clock goes back to 23:01 of 2010-11-06
+(UTC−4).  Three transactions at 03:00:30Z, 03:30:00Z and 04:30:00Z are, in local time, on the 7th, the 6th and the
+7th: the local date is not monotone in the instant.
+(`corpus/C13/f12-goose-bay-date-twice.json` replays the same instants on the implementation;
+`corpus/C13/example-lean-goose-bay.json` is exactly the journal below.)
+
+```
+2010-11-07T03:00:30Z        2010-11-07T03:30:00Z        2010-11-07T04:30:00Z
+ a:cash  -1                  a:cash  -2                  e:food   4
+ e:food   1                  e:food   2                  x:y     -4
+```
+-/
+
+/-- the zone as data: the window 2010-11-04 … 2010-11-10, offset −3 h, one transition to −4 h -/
+def gooseBay : Time.ZoneTable :=
+  ⟨1288828800000000000, 1289347200000000000, -10800, [(1289098860000000000, -14400)]⟩
+
+def mkT (ns : Int) (posts : List Posting) : Txn := ⟨⟨⟨ns, 0⟩, none, none, none, none, none, none⟩, posts⟩
+def t1 : Txn := mkT 1289098830000000000 [C02.mkP ["a","cash"] "" (C02.dd (-1) 0), C02.mkP ["e","food"] "" (C02.dd 1 0)]
+def t2 : Txn := mkT 1289100600000000000 [C02.mkP ["a","cash"] "" (C02.dd (-2) 0), C02.mkP ["e","food"] "" (C02.dd 2 0)]
+def t3 : Txn := mkT 1289104200000000000 [C02.mkP ["e","food"] "" (C02.dd 4 0), C02.mkP ["x","y"] "" (C02.dd (-4) 0)]
+def txnsF12 : List Txn := [t1, t2, t3]
+/-- the settings after loading that journal (no charts, empty commodity permitted) -/
+def stF : Settings := Settings.ofConfig false false true [["a","cash"],["e","food"],["x","y"]] [""] []
+def keyF : Txn → String := groupKey .date (.table gooseBay)
+
+/-- the list is in instant order, the zone table covers it … -/
+example : txnsF12.Pairwise (fun a b => a.header.ts.ns ≤ b.header.ts.ns) := by decide
+example : zoneCovers (.table gooseBay) txnsF12 = true := by decide
+/-- … and the local dates are the 7th, the 6th, the 7th -/
+theorem ex_keys : txnsF12.map keyF = ["2010-11-07", "2010-11-06", "2010-11-07"] := by decide
+
+/-- **witness of F12, part 1**: consecutive grouping of the instant-ordered list yields the key `2010-11-07` twice -/
+theorem witness_F12_keys :
+    (chunkBy keyF txnsF12).map (·.1) = ["2010-11-07", "2010-11-06", "2010-11-07"] ∧
+    ¬ ((chunkBy keyF txnsF12).map (·.1)).Nodup := by
+  have h : (chunkBy keyF txnsF12).map (·.1) = ["2010-11-07", "2010-11-06", "2010-11-07"] := by decide
+  exact ⟨h, by rw [h]; decide⟩
+
+/-- evaluation helper: `from_iter` on a posting stream that is already in account order, stage by stage -/
+theorem fromIter_eval (st : Settings) (sel : BalRow → Bool) (posts : List BPost) (sums complete : List (AKey × Dec))
+    (bal : List BalRow) (ds : List (String × Dec))
+    (h0 : posts.Pairwise (fun a b => keyLe a.key b.key = true))
+    (h1 : sumGroups (chunkBy BPost.key posts) = some sums)
+    (h2 : completeTree st sums = .ok complete)
+    (h3 : flattenOpt ((complete.filter (fun s => s.1.2.length == 1)).map
+            (treeNodes complete (maxDepth complete + 1))) = some bal)
+    (h4 : bal.Pairwise (fun a b => keyLe a.key b.key = true))
+    (h5 : deltaGroups (chunkBy (·.comm) (bal.filter sel)) = some ds) :
+    fromIter st sel posts = .ok ⟨bal.filter sel, ds⟩ := by
+  unfold fromIter balance accountSums
+  rw [List.mergeSort_of_pairwise h0, h1]; dsimp only
+  rw [h2]; dsimp only
+  rw [h3]; dsimp only
+  rw [List.mergeSort_of_pairwise h4, h5]
+
+def all : BalRow → Bool := fun _ => true
+/-- the group of 2010-11-06: the second transaction alone -/
+def bal06 : Balance := ⟨[⟨["a"], "", Dec.zero, C02.dd (-2) 0⟩, ⟨["a","cash"], "", C02.dd (-2) 0, C02.dd (-2) 0⟩,
+  ⟨["e"], "", Dec.zero, C02.dd 2 0⟩, ⟨["e","food"], "", C02.dd 2 0, C02.dd 2 0⟩], [("", C02.dd 0 0)]⟩
+/-- the group of 2010-11-07: the first and the third transaction -/
+def bal07 : Balance := ⟨[⟨["a"], "", Dec.zero, C02.dd (-1) 0⟩, ⟨["a","cash"], "", C02.dd (-1) 0, C02.dd (-1) 0⟩,
+  ⟨["e"], "", Dec.zero, C02.dd 5 0⟩, ⟨["e","food"], "", C02.dd 5 0, C02.dd 5 0⟩,
+  ⟨["x"], "", Dec.zero, C02.dd (-4) 0⟩, ⟨["x","y"], "", C02.dd (-4) 0, C02.dd (-4) 0⟩], [("", C02.dd 0 0)]⟩
+
+theorem ex_bal06 : fromIter stF all (postsOf [t2]) = .ok bal06 := by
+  rw [fromIter_eval stF all (postsOf [t2])
+    [(("", ["a","cash"]), C02.dd (-2) 0), (("", ["e","food"]), C02.dd 2 0)]
+    [(("", ["a"]), Dec.zero), (("", ["a","cash"]), C02.dd (-2) 0), (("", ["e"]), Dec.zero), (("", ["e","food"]), C02.dd 2 0)]
+    bal06.rows bal06.deltas (by decide) (by decide) (by decide) (by decide) (by decide) (by decide)]
+  rfl
+
+theorem ex_bal07 : fromIter stF all (postsOf [t1, t3]) = .ok bal07 := by
+  rw [fromIter_eval stF all (postsOf [t1, t3])
+    [(("", ["a","cash"]), C02.dd (-1) 0), (("", ["e","food"]), C02.dd 5 0), (("", ["x","y"]), C02.dd (-4) 0)]
+    [(("", ["a"]), Dec.zero), (("", ["a","cash"]), C02.dd (-1) 0), (("", ["e"]), Dec.zero), (("", ["e","food"]), C02.dd 5 0),
+     (("", ["x"]), Dec.zero), (("", ["x","y"]), C02.dd (-4) 0)]
+    bal07.rows bal07.deltas (by decide) (by decide) (by decide) (by decide) (by decide) (by decide)]
+  rfl
+
+/-- the candidates of the repaired code: two groups, the 7th holds the first and the third transaction -/
+theorem ex_candidates : groupCandidates keyF txnsF12 = [("2010-11-06", [t2]), ("2010-11-07", [t1, t3])] := by
+  have hk1 : keyF t1 = "2010-11-07" := by decide
+  have hk2 : keyF t2 = "2010-11-06" := by decide
+  have hk3 : keyF t3 = "2010-11-07" := by decide
+  rw [group_candidates_eq keyF txnsF12 ["2010-11-06", "2010-11-07"] (by decide)]
+  · simp only [List.map_cons, List.map_nil, txnsF12, List.filter_cons, hk1, hk2, hk3, List.filter_nil]
+    decide
+  · intro k
+    simp only [txnsF12, List.mem_cons, List.mem_nil_iff, or_false, exists_eq_or_imp, exists_eq_left, hk1, hk2, hk3]
+    grind
+
+/-- **the report of the repaired code on the witness journal**: `2010-11-06` (−2 / 2) and `2010-11-07` once, with
+    both of its transactions (cash −1, food 1 + 4, x:y −4) -/
+theorem ex_report : balanceGroups stF all .date (.table gooseBay) txnsF12
+    = .ok [⟨"2010-11-06", bal06⟩, ⟨"2010-11-07", bal07⟩] := by
+  have hz : zoneCovers (.table gooseBay) txnsF12 = true := by decide
+  unfold balanceGroups balanceGroupsBy
+  rw [hz]
+  simp only [if_true]
+  change Outcome.map _ (groupBalances stF all (groupCandidates keyF txnsF12)) = _
+  rw [ex_candidates]
+  simp only [groupBalances, ex_bal06, ex_bal07, Outcome.map]
+  decide
+
+/-- the figures of the example satisfy the theorems' hypotheses … -/
+example : C02.PostsWF (postsOf txnsF12) := by
+  refine ⟨by decide, by decide, C02.namesInj_of_good _ ?_⟩
+  have : ∀ x ∈ postsOf txnsF12, ∀ c ∈ x.acct, c ≠ "" ∧ ':' ∉ c.toList := by decide
+  exact fun x hx c hc => this x hx c hc
+/-- … e.g. `group_total`: `e:food` has 2 in the group of the 6th and 5 in the group of the 7th, 7 in all -/
+example : ((groupCandidates keyF txnsF12).map (fun kg => C02.ownSum (postsOf kg.2) ("", ["e","food"]))).sum
+    = 7 * 10 ^ 28 := by
+  rw [ex_candidates]; decide
+
+/-- **witness of F12, part 2**: on this journal the code before the fix cannot print what the repaired code prints —
+    whenever it answers, some title occurs twice (every run of the instant-ordered list becomes a printed group),
+    whereas `group_keys` shows the repaired code never repeats a title. -/
+theorem witness_F12 (gs : List BalGroup)
+    (h : balanceGroupsConsecutive stF all keyF txnsF12 = .ok gs) : ¬ (gs.map (·.title)).Nodup := by
+  unfold balanceGroupsConsecutive at h
+  obtain ⟨bs, hbs, rfl⟩ := (Outcome.map_ok _ _ _).mp h
+  obtain ⟨hall, rfl⟩ := (groupBalances_ok_iff stF all _ bs).mp hbs
+  have hc : chunkBy keyF txnsF12 = [("2010-11-07", [t1]), ("2010-11-06", [t2]), ("2010-11-07", [t3])] := by decide
+  rw [hc] at hall ⊢
+  -- every chunk has a listed row (all accounts are listed and each chunk has postings)
+  have hwfall : ∀ kg ∈ [("2010-11-07", [t1]), ("2010-11-06", [t2]), ("2010-11-07", [t3])],
+      C02.PostsWF (postsOf kg.2) := by
+    intro kg hkg
+    have h1 : ∀ kg ∈ [("2010-11-07", [t1]), ("2010-11-06", [t2]), ("2010-11-07", [t3])],
+        ∀ p ∈ postsOf kg.2, p.amount.scale ≤ 28 := by decide
+    have h2 : ∀ kg ∈ [("2010-11-07", [t1]), ("2010-11-06", [t2]), ("2010-11-07", [t3])],
+        ∀ p ∈ postsOf kg.2, p.acct ≠ [] := by decide
+    have h3 : ∀ kg ∈ [("2010-11-07", [t1]), ("2010-11-06", [t2]), ("2010-11-07", [t3])],
+        ∀ x ∈ postsOf kg.2, ∀ c ∈ x.acct, c ≠ "" ∧ ':' ∉ c.toList := by decide
+    exact ⟨h1 kg hkg, h2 kg hkg, C02.namesInj_of_good _ (fun x hx c hc => h3 kg hkg x hx c hc)⟩
+  have hposted : ∀ kg ∈ [("2010-11-07", [t1]), ("2010-11-06", [t2]), ("2010-11-07", [t3])],
+      postsOf kg.2 ≠ [] := by decide
+  have hne : ∀ kg ∈ [("2010-11-07", [t1]), ("2010-11-06", [t2]), ("2010-11-07", [t3])],
+      (balOf stF all kg).isEmpty = false := by
+    intro kg hkg
+    obtain ⟨b, hb⟩ := hall kg hkg
+    obtain ⟨bal, hbal, hrows⟩ := fromIter_rows stF all _ b hb
+    obtain ⟨p, tl, hptl⟩ := List.exists_cons_of_ne_nil (hposted kg hkg)
+    have hp : p ∈ postsOf kg.2 := by rw [hptl]; exact List.mem_cons_self
+    have hk : p.key ∈ bal.map (·.key) :=
+      ((C02.rows_exact stF _ (hwfall kg hkg) bal hbal).2 p.key).mpr (.inl ⟨p, hp, rfl⟩)
+    obtain ⟨r, hr, _⟩ := List.mem_map.mp hk
+    have hall' : bal.filter all = bal := by simp [all]
+    simp only [BalGroup.isEmpty, balOf, hb, hrows, hall']
+    cases bal with
+    | nil => cases hr
+    | cons _ _ => rfl
+  intro hnd
+  have hfilt : ([("2010-11-07", [t1]), ("2010-11-06", [t2]), ("2010-11-07", [t3])].map (balOf stF all)).filter
+      (fun g => !g.isEmpty) = [("2010-11-07", [t1]), ("2010-11-06", [t2]), ("2010-11-07", [t3])].map (balOf stF all) := by
+    rw [List.filter_eq_self]
+    intro g hg
+    obtain ⟨kg, hkg, rfl⟩ := List.mem_map.mp hg
+    rw [hne kg hkg]; rfl
+  rw [hfilt] at hnd
+  have hperm := ((List.mergeSort_perm ([("2010-11-07", [t1]), ("2010-11-06", [t2]), ("2010-11-07", [t3])].map
+    (balOf stF all)) (fun a b => !decide (b.title < a.title))).map (·.title))
+  have := hperm.nodup_iff.mp hnd
+  simp [balOf] at this
 
 end C13
 end Tackler
